@@ -16,7 +16,9 @@ EXPLANATION = (
     "infeasible, True only with a proven model, publish that model's solution); (R3) the k-range reaches |E|; (R4) every get_width call "
     "that feeds k or a lower bound ignores the receiver's synthetic source/sink edges together with the model's ignore set (the convention "
     "the property states); (R5) the cached width is stored and returned only under the 'no edges to ignore' test; (R6) the per-walk repetition cap of the walk cover model is the tabled provider "
-    "|E|*|V| and caps are only lowered to 1 for non-SCC edges (a smaller cap makes k = width infeasible).  NOT decided: cover "
+    "|E|*|V| and caps are only lowered to 1 for non-SCC edges (a smaller cap makes k = width infeasible); (R7) the demands fed to the width computation are "
+    "1 per non-ignored edge (DAG), the un-capped multiplicity per condensation edge lowered by 1 per ignored edge, and 1 per non-trivial SCC "
+    "(0 iff all member edges are ignored).  NOT decided: cover "
     "optimality, width == minimum (min-max identity), correctness of the min-cost-flow reduction."
 )
 DECIDED = ["cover constraints present for every non-ignored edge", "search protocol and range of both minimum cover searches",
@@ -97,6 +99,62 @@ def width_cache(prog: Program, rep, RID: str):
                               "non-empty: a width computed for one ignore set answers queries for another", f.loc(st))
 
 
+def width_demands(prog: Program, rep, RID: str):
+    """The demand every element places on the width computation is what the property's mechanism states: 1 per non-ignored edge
+    (stDAG); per condensation edge the number of original inter-SCC edges minus the ignored ones, un-capped; 1 per non-trivial SCC
+    unless all its member edges are ignored (stDiGraph)."""
+    f = prog.own_method("stDAG", "get_width")
+    ok = False
+    for st in walk_no_nested(f.node):
+        if isinstance(st, ast.Assign) and isinstance(st.value, ast.DictComp):
+            dc = st.value
+            if norm(dc.value) == "1" and norm(dc.key) == norm(dc.generators[0].target) and norm(dc.generators[0].iter) in ("self.edges()", "self.edges") \
+                    and len(dc.generators[0].ifs) == 1 and isinstance(dc.generators[0].ifs[0], ast.Compare) and isinstance(dc.generators[0].ifs[0].ops[0], ast.NotIn):
+                ok = True
+    key = "stDAG.get_width:demand"
+    if ok:
+        rep.ok(RID, key, "weight 1 for every edge outside the ignore set, nothing else", f.loc())
+    else:
+        rep.violation(RID, key, "the weight function of the antichain computation is not {e: 1 for every non-ignored edge}", f.loc())
+    g = prog.own_method("stDiGraph", "get_width")
+    hit = None
+    for lp in [n for n in walk_no_nested(g.node) if isinstance(n, ast.For)]:
+        if norm(lp.iter) in ("self._condensation.edges", "self._condensation.edges()"):
+            for st in lp.body:
+                if isinstance(st, ast.Assign) and isinstance(st.targets[0], ast.Subscript) and "weight_function" in norm(st.targets[0].value):
+                    hit = (lp, st)
+    key = "stDiGraph.get_width:inter-SCC-demand"
+    if hit is None:
+        rep.violation(RID, key, "no per-condensation-edge demand is set in the width computation", g.loc())
+    else:
+        lp, st = hit
+        tv = norm(lp.target).strip("()")
+        want = {f"edge_multiplicity[{tv}]", f"edge_multiplicity[({tv})]"}
+        if norm(st.value) in want and "_condensation_edge_to_condensation_expanded_edge" in norm(st.targets[0].slice):
+            rep.ok(RID, key, "demand of a condensation edge = number of original edges between the two SCCs (after removing ignored ones), un-capped", g.loc(st),
+                   sample={"stmt": norm(st)})
+        else:
+            rep.violation(RID, key, f"`{norm(st)[:110]}`: the demand of a condensation edge is not its multiplicity `edge_multiplicity[{tv}]` - parallel edges "
+                          "between two SCCs are under- or over-counted and the reported width differs from the minimum cover", g.loc(st))
+    dec = [st for st in ast.walk(g.node) if isinstance(st, ast.AugAssign) and "edge_multiplicity[" in norm(st.target)]
+    key = "stDiGraph.get_width:ignored-decrement"
+    from rules.semantic import enclosing_tests
+    good = len(dec) == 1 and isinstance(dec[0].op, ast.Sub) and norm(dec[0].value) == "1" and \
+        any(("is_scc_edge" in norm(t)) and ((norm(t).startswith("not") and pol) or (not norm(t).startswith("not") and not pol)) for t, pol in enclosing_tests(g.node, dec[0]))
+    if good:
+        rep.ok(RID, key, "each ignored inter-SCC edge lowers the demand of its condensation edge by exactly 1", g.loc(dec[0]))
+    else:
+        rep.violation(RID, key, "ignored inter-SCC edges do not lower the condensation-edge demand by exactly 1 each", g.loc(dec[0]) if dec else g.loc())
+    scc = [st for st in ast.walk(g.node) if isinstance(st, ast.Assign) and isinstance(st.targets[0], ast.Subscript) and "weight_function" in norm(st.targets[0].value)
+           and "self._expanded(" in norm(st.targets[0].slice)]
+    vals = sorted(norm(st.value) for st in scc)
+    key = "stDiGraph.get_width:SCC-demand"
+    if vals == ["0", "1"]:
+        rep.ok(RID, key, "a non-trivial SCC demands 1 walk unless all of its member edges are ignored (then 0)", g.loc(scc[0]))
+    else:
+        rep.violation(RID, key, f"SCC demands are {vals} (expected 1, and 0 only when every member edge is ignored)", g.loc())
+
+
 def check(prog: Program, rep):
     rep.rule("C09.R1", "cover families conform to the frozen formulation table", floor=3)
     conformance(prog, rep, "C09.R1", "C09")
@@ -114,3 +172,5 @@ def check(prog: Program, rep):
     from rules.c04 import repetition_caps
     from rules.common import RuleProxy
     repetition_caps(prog, RuleProxy(rep, "C09.R6"), "C04.R5")
+    rep.rule("C09.R7", "demands entering the width computation (per edge / per condensation edge / per SCC)", floor=4)
+    width_demands(prog, rep, "C09.R7")
